@@ -69,7 +69,7 @@ def runOps (T : Tun) (F : SecFns ρ) : Store ρ → Acc → List Op → Store ρ
 
 /-- a whole history from the empty store with the coin supply `coins` -/
 def run (T : Tun) (F : SecFns ρ) (ops : List Op) (coins : List Bool) : Store ρ × Acc :=
-  runOps T F [] { coins := coins } ops
+  runOps T F [] (Acc.init coins) ops
 
 /-- the specification side: what each object id should hold — its mode and every item fed to it (through merges and copies) -/
 structure SpecSk where
@@ -173,14 +173,15 @@ def strictlyIncreasing : List Int → Bool
 
 structure DState (ρ : Type) where
   st : Store ρ := []
-  acc : Acc := { coins := [] }
+  acc : Acc := Acc.init []
 
 def parseCoins (s : String) : List Bool := s.toList.filterMap (fun c => if c = '0' then some false else if c = '1' then some true else none)
 
 def stepLine (T : Tun) (F : SecFns ρ) (R : RseConsts) (d : DState ρ) (w : List String) : DState ρ × String :=
   let bad := (d, "bad-op")
   match w with
-  | ["coins", bits] => ({ d with acc := { d.acc with coins := parseCoins bits } }, s!"C f={d.acc.used}")
+  | ["coins", bits] => (let u := d.acc.used; let b := parseCoins bits
+                        { d with acc := { d.acc with coins := fun i => b.getD (i - u) false } }, s!"C f={d.acc.used}")
   | ["new", id, k, hra] =>
     match id.toNat?, k.toNat? with
     | some id, some k =>
@@ -313,7 +314,7 @@ def flipsAfterEach (T : Tun) (F : SecFns ρ) : Store ρ → Acc → List Op → 
 
 /-- longest prefix of the history whose flip count (all-false coins) is ≤ maxFlips -/
 def truncateOps (T : Tun) (F : SecFns ρ) (ops : List Op) (maxFlips : Nat) : List Op :=
-  let fl := flipsAfterEach T F [] { coins := [] } ops
+  let fl := flipsAfterEach T F [] (Acc.init []) ops
   ops.take ((fl.takeWhile (· ≤ maxFlips)).length)
 
 def leafLine (st : Store ρ) (acc : Acc) : String :=
